@@ -190,6 +190,10 @@ package state
 //@   modifies sc.transfers, sc.transfers[*]
 //@   lock-balanced sc.mutex
 
+// Only AddSignedTransfer stores to the list of signed transfers of an existing state context (SSA scan):
+// once Validate has checked them, nothing the chain does while applying the queued plain transfers can
+// add to or replace that list.
+//@ writers C04 StateContext.signedTransfers : (*StateContext).AddSignedTransfer
 //@ func (*StateContext).AddSignedTransfer
 //@   prop C04
 //@   requires sc != nil
